@@ -546,7 +546,7 @@ func oracleC28(v *View, vd *Verdict) {
 				continue
 			}
 			vd.Trigger = true
-			bound := apiBound(v.R.Plan, cp, a)
+			bound := apiBound(v.R.Plan, cp, a) + v.R.StalledNs
 			step := gwBehaviour(v.R.Plan)
 			from := a.invT
 			if a.op == "wait" {
@@ -699,13 +699,19 @@ func oracleC33(v *View, vd *Verdict) {
 		type ev struct {
 			e  Ev
 			tx bool
+			st string // the client logged a change of its own state
 		}
 		var evs []ev
 		for _, e := range clientTx(v, cp.Name) {
-			evs = append(evs, ev{e, true})
+			evs = append(evs, ev{e, true, ""})
 		}
 		for _, e := range clientRx(v, cp.Name) {
-			evs = append(evs, ev{e, false})
+			evs = append(evs, ev{e, false, ""})
+		}
+		for i, rec := range v.R.Hist {
+			if rec.Ch == "state:"+cp.Name && rec.Kind == "state" {
+				evs = append(evs, ev{Ev{Idx: i, T: rec.T}, false, rec.S})
+			}
 		}
 		sortEvs := func() {
 			for i := 1; i < len(evs); i++ {
@@ -716,7 +722,6 @@ func oracleC33(v *View, vd *Verdict) {
 		}
 		sortEvs()
 		state := "disconnected"
-		sleepPending := false
 		var activeSince, lastPing int64 = -1, -1
 		lossy := len(v.R.Plan.Cfg.SN.Rules) > 0 || (v.R.Plan.SGW != nil && (len(v.R.Plan.SGW.Rules) > 0 || v.R.Plan.SGW.SilentAtMs > 0))
 		// once an API call has failed the client's goroutine group is cancelled: nothing more is owed
@@ -733,6 +738,21 @@ func oracleC33(v *View, vd *Verdict) {
 			if x.e.Idx > deadIdx {
 				state = "dead"
 				break
+			}
+			if x.st != "" {
+				// the client's own notion of its state is what the property speaks about: the
+				// datagrams that cause a change are processed a little later than they are read
+				switch x.st {
+				case "active":
+					if state != "active" {
+						state, activeSince, lastPing = "active", x.e.T, -1
+					}
+				case "asleep", "disconnected":
+					state = x.st
+				case "awake":
+					state = "awake"
+				}
+				continue
 			}
 			p := x.e.SN
 			if x.tx {
@@ -751,34 +771,12 @@ func oracleC33(v *View, vd *Verdict) {
 							// with planned losses the client may legitimately have given up (retry budget
 							// exhausted => its goroutine group is cancelled): then no ping is owed any more
 							gaveUp := lossy && deadIdx != int(^uint(0)>>1)
-							if ref >= 0 && x.e.T-ref > ka+cp.RetryDelayMs*nsMs+20*nsMs && !gaveUp {
+							if ref >= 0 && x.e.T-ref > ka+cp.RetryDelayMs*nsMs+20*nsMs+v.R.StalledNs && !gaveUp {
 								vd.Add("C33", "C33/keepalive-gap", "client %s: %d ms without a keep-alive PINGREQ while active (KeepAlive %d ms)", cp.Name, (x.e.T-ref)/nsMs, cp.KeepAliveMs)
 							}
 							lastPing = x.e.T
 						}
 					}
-				case refsn.DISCONNECT:
-					if p.HasDur && p.Duration > 0 {
-						sleepPending = true
-					} else {
-						state = "disconnected"
-					}
-				}
-			} else {
-				switch p.Type {
-				case refsn.CONNACK:
-					if p.RC == refsn.RCAccepted {
-						state, activeSince, lastPing = "active", x.e.T, -1
-					}
-				case refsn.DISCONNECT:
-					if sleepPending {
-						sleepPending = false
-						state = "asleep"
-					} else {
-						state = "disconnected"
-					}
-				case refsn.PINGRESP:
-					// the wake-up PINGRESP leaves the client asleep (it sleeps again or reconnects)
 				}
 			}
 		}
@@ -788,7 +786,7 @@ func oracleC33(v *View, vd *Verdict) {
 			if ref < activeSince {
 				ref = activeSince
 			}
-			if v.R.SimNs-int64(6e9)-ref > ka+cp.RetryDelayMs*nsMs+20*nsMs {
+			if v.R.SimNs-int64(6e9)-ref > ka+cp.RetryDelayMs*nsMs+20*nsMs+v.R.StalledNs {
 				vd.Add("C33", "C33/keepalive-gap/tail", "client %s: active since %d, last keep-alive PINGREQ at %d, none until %d (KeepAlive %d ms)", cp.Name, activeSince, lastPing, v.R.SimNs, cp.KeepAliveMs)
 			}
 		}
@@ -798,7 +796,7 @@ func oracleC33(v *View, vd *Verdict) {
 				if a.client != cp.Name || a.op == "wait" {
 					continue
 				}
-				bound := apiBound(v.R.Plan, cp, a)
+				bound := apiBound(v.R.Plan, cp, a) + v.R.StalledNs
 				if a.returned && a.err != "nil" && !strings.Contains(a.err, "cannot call Sleep") {
 					// later failures are consequences of the first one (the client's goroutine group is cancelled)
 					vd.Add("C33", "C33/api-call-failed/first="+a.op+"/"+errClassTX(a.err), "client %s: %s returned %q although the gateway answered everything (keep-alive %d ms)", cp.Name, a.desc, a.err, cp.KeepAliveMs)
